@@ -1,7 +1,7 @@
 //@ unit fmt_escapes
 //@ props C12 C01
 //@ kind W
-//@ cbmc all --unwind 9 --unwinding-assertions --arrays-uf-always
+//@ cbmc all --unwind 9 --unwinding-assertions --no-sat-preprocessor
 //@ entry h_fmt_escapes
 //@ note W: complete over all 2^16 XMLCh values x the four escape modes x fIsXML11 in {false,true}; the list scan loop (at most kEscapeCount = 7 entries per row) is fully unwound with unwinding assertions
 //@ note the spec sets (spec/escape.h) are written from XML 1.0 2.3/2.4/2.11/3.3.3/4.6 and XML 1.1 2.2/2.11, not from XMLFormatter.hpp (whose comment tables are stale)
